@@ -331,4 +331,29 @@ CANARIES: Dict[str, Dict[str, Any]] = {
         old="    query, key, value = (fwd_format.quantise_fwd(t) for t in (query, key, value))\n    output = F.scaled_dot_product_attention", new="    query, key = (fwd_format.quantise_fwd(t) for t in (query, key))\n    output = F.scaled_dot_product_attention",
         job="c15:wrapper[_quantised_scaled_dot_product_attention]", expect=["equals_op_on_fwd_quantised_operands"],
     ),
+    "c19-prune-top-level-args-only": dict(
+        props=["C19"], file="unit_scaling/transforms/_track_scales.py", module="unit_scaling.transforms._track_scales",
+        old="        user.args = map_arg(user.args, swap)\n", new="        user.args = tuple(swap(a) if isinstance(a, Node) else a for a in user.args)\n",
+        job="c19:_prune[nested_list,rep=node]", expect=["never_raises"],
+    ),
+    "c19-prune-forgets-kwargs": dict(
+        props=["C19"], file="unit_scaling/transforms/_track_scales.py", module="unit_scaling.transforms._track_scales",
+        old="        user.kwargs = map_arg(user.kwargs, swap)\n", new="",
+        job="c19:_prune[keyword,rep=node]", expect=["never_raises"],
+    ),
+    "c19-non-float-prunes-in-place": dict(
+        props=["C19"], file="unit_scaling/transforms/_track_scales.py", module="unit_scaling.transforms._track_scales",
+        old="    graph = deepcopy(graph)\n    for n in graph.nodes:\n        if n.name == \"output\":\n            continue\n", new="    for n in graph.nodes:\n        if n.name == \"output\":\n            continue\n",
+        job="c19:prune_non_float_tensors[float_args=1,node_is_float=False,user=positional]", expect=["input_graph_unchanged"],
+    ),
+    "c19-same-scale-ignores-backward": dict(
+        props=["C19"], file="unit_scaling/transforms/_track_scales.py", module="unit_scaling.transforms._track_scales",
+        old="    return _directions_same_scale(a.fwd, b.fwd, rtol) and _directions_same_scale(\n        a.bwd, b.bwd, rtol\n    )", new="    return _directions_same_scale(a.fwd, b.fwd, rtol)",
+        job="c19:prune_same_scale_tensors[bwd=both,float_args=1,node_is_float=True,user=positional]", expect=["node_removed_iff_same_scale_within_rtol"],
+    ),
+    "c19-non-float-bypasses-with-two-float-inputs": dict(
+        props=["C19"], file="unit_scaling/transforms/_track_scales.py", module="unit_scaling.transforms._track_scales",
+        old="            a = float_tensor_args[0] if len(float_tensor_args) == 1 else None", new="            a = float_tensor_args[0] if len(float_tensor_args) >= 1 else None",
+        job="c19:prune_non_float_tensors[float_args=2,node_is_float=False,user=positional]", expect=["consumer_"],
+    ),
 }
